@@ -67,6 +67,7 @@ def run(ctx):
     }
     used = set()
     passed = set()
+    extra_stages = {}
     depth_of = {}
     depth_term = {}
     # links between stream endpoints: consecutive elements of a Pipeline, or an unguarded whole-record connect (no omit / keep) - both forward valid,
@@ -126,6 +127,7 @@ def run(ctx):
                 pl = [[src, p_[ci], dst]]
                 for n_ in p_[1:-1]:
                     passed.add(n_)
+                extra_stages[nm] = len(p_) - 3          # lossless stream stages besides the crossing itself
                 break
         if not pl:
             ob1.refute("pipeline:%s" % nm, "%s does not reach %s through a ClockDomainCrossing by plain stream links (Pipeline elements or whole-record connects): links are %s" %
@@ -165,6 +167,14 @@ def run(ctx):
             if norm(g2) != norm(exp):
                 ob2.refute("layout:%s" % nm, "the %s crossing carries %s but the port's %s is %s: a missing field is dropped, a narrower one truncated" %
                            (nm, got, desc, exp), c.loc)
+    # the controller takes write data at a fixed time after the command without looking at wdata.valid: a write word must never be BEHIND its command on the way to the
+    # controller, so the write-data path may not have more register stages than the command path
+    if "cmd" in extra_stages and "wdata" in extra_stages:
+        ob1.instance("extra stream stages", dict(extra_stages))
+        if extra_stages["wdata"] > extra_stages["cmd"]:
+            ob1.refute("wdata-behind-cmd", "the write-data path has %d register stage(s) besides its crossing, the command path %d: a write word reaches the controller side later "
+                       "than its command, and the controller - which takes write data without a handshake - stores the previous word" %
+                       (extra_stages["wdata"], extra_stages["cmd"]), None)
     # nothing else may touch the handshake or payload of the six port endpoints or of the crossings
     eps = {e_ for nm, w_ in want.items() for e_ in w_[:2]} | {str(o) + sfx for o in cdcs for sfx in (".sink", ".source")} | {n_ + sfx for n_ in passed for sfx in (".sink", ".source")}
     for l in v.leaves:
